@@ -504,8 +504,12 @@ def run_points(inp):
             for idx in np.ndindex(*shape):
                 with np.errstate(all="ignore"):
                     u = np.array(H.Point(k[idx].copy(), model="klein").coords(m))
-                ok = (rows_proj_eq(c[idx], u, 1e-9) if np.all(np.isfinite(u)) and np.all(np.isfinite(c[idx])) else same_val(c[idx], u)) \
-                    if m in ("projective", "hyperboloid") else same_val(c[idx], u, 1e-9)
+                # a point on the sphere only up to rounding (1 - |k|^2 ~ 1e-16, not 0): its Poincare / half-space coordinates contain
+                # sqrt(1 - |k|^2), i.e. are determined to ~1e-8 only (the order of summation in |k|^2 already changes them): conditioning
+                gap = abs(1.0 - float(np.sum(k[idx] ** 2)))
+                tolu = 1e-9 if (gap > 1e-6 or np.count_nonzero(k[idx]) <= 1) else 1e-6
+                ok = (rows_proj_eq(c[idx], u, tolu) if np.all(np.isfinite(u)) and np.all(np.isfinite(c[idx])) else same_val(c[idx], u)) \
+                    if m in ("projective", "hyperboloid") else same_val(c[idx], u, tolu)
                 if not ok:
                     bad.append({"what": "coords_special", "model": m, "idx": list(idx), "composite": c[idx].tolist(), "unit": u.tolist(),
                                 "expected": "entry of the composite result = result on the unit, also next to exactly ideal / repeated / origin elements"})
